@@ -284,6 +284,13 @@ func HC17_JSON() {
 	vAssert(back.UnmarshalJSON(data) == nil, "UnmarshalJSON accepts what MarshalJSON produced")
 	vAssert(vAnd(back.id == e.id, back.gen == e.gen), "entity handles survive a JSON round trip unchanged")
 	vAssert(back == e, "round-tripped handle compares equal")
+	// through encoding/json itself, by value and by pointer (what users do with structs, maps and slices of entities)
+	byVal, err1 := json.Marshal(e)
+	byPtr, err2 := json.Marshal(&e)
+	vAssert(err1 == nil && err2 == nil, "json.Marshal of an entity does not fail")
+	var r1, r2 Entity
+	vAssert(json.Unmarshal(byVal, &r1) == nil && r1 == e, "an entity marshalled by value survives the JSON round trip")
+	vAssert(json.Unmarshal(byPtr, &r2) == nil && r2 == e, "an entity marshalled through a pointer survives the JSON round trip")
 	// a handle of a live world
 	w := NewWorld()
 	w.NewEntity()
